@@ -74,10 +74,10 @@ TParse21 == Is("Parse21") /\ WhyParse21 = "ok" /\ Parse21 /\ Keep /\ Adv
 TSetUserData == Is("SetUserData") /\ E.v = obj.ud.v + 1 /\ SetUserData(E.len) /\ Keep /\ Adv
 TSetConstraints == Is("SetConstraints") /\ SetConstraints(E.cons) /\ Keep /\ Adv
 
-WhyBuild1 == IF ~(ShapeOK("cert_block_1", E.keys) /\ E.used \in 1..Len(E.keys)) THEN "legal"
+WhyBuild1 == IF ~(ShapeOK("cert_block_1", E.keys) /\ E.used \in 1..Len(E.keys) /\ HdrOK(E.ver, E.flags)) THEN "legal"
              ELSE IF E.term # RkthV1(E.keys) \/ Len(E.want) # 32 THEN "term"
              ELSE IF ~Val(E.got, E.want) THEN "rkth" ELSE "ok"
-TBuild1 == Is("Build1") /\ WhyBuild1 = "ok" /\ Build1(E.keys, E.used, E.img, E.build) /\ Keep /\ Adv
+TBuild1 == Is("Build1") /\ WhyBuild1 = "ok" /\ Build1(E.keys, E.used, E.img, E.build, E.ver, E.flags) /\ Keep /\ Adv
 WhyExport1 == IF obj.kind # "cb1" THEN "legal"
               ELSE IF E.rkth_term # RkthV1(obj.keys) \/ E.table_term # TableV1(obj.keys) THEN "term"
               ELSE IF E.got.k # "val" THEN "returned"
@@ -92,6 +92,8 @@ WhyParse1 == IF out.kind # "cb1" THEN "legal"
              ELSE IF E.got.v # E.want THEN "rkth"
              ELSE IF E.img # out.img THEN "image_length"
              ELSE IF E.build # out.build THEN "build_number"
+             ELSE IF E.ver # out.ver THEN "header_version"
+             ELSE IF E.flags # out.flags THEN "header_flags"
              ELSE IF E.rkh_index # out.used - 1 THEN "rkh_index"
              ELSE IF E.cert_count # 1 \/ ~E.cert_ok THEN "certificates"
              ELSE IF E.reexport_sha # lastSha THEN "reexport" ELSE "ok"
@@ -136,7 +138,7 @@ WhyComputeT == IF ~TabLegal(tab) \/ E.fl # tab.fl THEN "legal"
                ELSE IF ~Whole(tab.fl) /\ ~Obs(E.tbl, E.table_want) THEN "table"
                ELSE IF HasFuses(tab.fl) /\ ~Obs(E.fuses, E.want) THEN "fuses"
                ELSE IF CanExport /\ ~Obs(E.parsed, E.want) THEN "parsed"
-               ELSE IF tab.fl = "cb1" /\ CanExport /\ ~Header1OK([build |-> 0, img |-> 0], E.f) THEN "layout"
+               ELSE IF tab.fl = "cb1" /\ CanExport /\ ~Header1OK([build |-> 0, img |-> 0, ver |-> DefVer, flags |-> DefFlags], E.f) THEN "layout"
                ELSE IF tab.fl = "cb1" /\ CanExport /\ E.f.table # E.table_want THEN "export_table"
                ELSE IF tab.fl = "cb1" /\ CanExport /\ E.f.rkh_index # CertIndex(tab) - 1 THEN "rkh_index" ELSE "ok"
 TComputeT == Is("ComputeT") /\ WhyComputeT = "ok" /\ ComputeT /\ Keep /\ Adv
